@@ -452,6 +452,12 @@ func parentMain(p *Prop, tier string) int {
 	env.Scratch = dir
 	agg := newAgg(env, p)
 	var mu sync.Mutex
+	if p.ParentInit != nil {
+		if err := p.ParentInit(env); err != nil {
+			fmt.Printf("HARNESS-ERROR property=%s ParentInit: %v\n", p.ID, err)
+			return 3
+		}
+	}
 
 	// 1. pinned witnesses of known findings
 	known := loadKnown(env, p.ID)
